@@ -171,6 +171,10 @@ impl Global {
         atomic::fence(Ordering::SeqCst);
 
         let epoch = self.epoch.load(Ordering::Relaxed);
+        vevent!(BagSealed {
+            epoch: epoch.value(),
+            len: bag.0.len()
+        });
         self.queue.push(bag.seal(epoch), guard);
     }
 
@@ -201,6 +205,9 @@ impl Global {
             ) {
                 None => break,
                 Some(sealed_bag) => {
+                    vevent!(BagExpired {
+                        epoch: sealed_bag.epoch.value()
+                    });
                     drop(sealed_bag);
                 }
             }
@@ -315,6 +322,9 @@ impl Local {
                 epoch: CachePadded::new(AtomicEpoch::new(Epoch::starting())),
             });
             collector.global.locals.insert(local, &unprotected());
+            vevent!(Registered {
+                local: local.as_raw() as usize
+            });
             LocalHandle {
                 local: local.as_raw(),
             }
@@ -441,6 +451,10 @@ impl Local {
                 self.epoch.store(Epoch::starting(), Ordering::Release);
             };
 
+            vevent!(Pinned {
+                local: self as *const Self as usize,
+                epoch: new_epoch.value()
+            });
             // Reset the advance couter if epoch has advanced.
             if new_epoch != self.prev_epoch.get() {
                 self.prev_epoch.set(new_epoch);
@@ -470,6 +484,9 @@ impl Local {
         self.guard_count.set(guard_count - 1);
         if guard_count == 1 {
             self.epoch.store(Epoch::starting(), Ordering::Release);
+            vevent!(Unpinned {
+                local: self as *const Self as usize
+            });
 
             if self.handle_count.get() == 0 {
                 self.finalize();
@@ -498,6 +515,10 @@ impl Local {
             // We store the new epoch with `Release` because we need to ensure any memory
             // accesses from the previous epoch do not leak into the new one.
             self.epoch.store(global_epoch, Ordering::Release);
+            vevent!(Repinned {
+                local: self as *const Self as usize,
+                epoch: global_epoch.value()
+            });
         }
         global_epoch
     }
@@ -548,6 +569,9 @@ impl Local {
             let collector: Collector = ptr::read(&**self.collector.get());
 
             // Mark this node in the linked list as deleted.
+            vevent!(Finalized {
+                local: self as *const Self as usize
+            });
             self.entry.delete(&unprotected());
 
             // Finally, drop the reference to the global. Note that this might be the last reference
